@@ -158,6 +158,8 @@ def run(tag, i, n, maxn):
     sh(f"sed -i 's#\"/repo/#\"{MX}/repo/#g' {MX}/verif/harness/Cargo.toml")
     sh(f'cp -a /repo/target {MX}/repo/target')
     env = dict(os.environ, CARGO_NET_OFFLINE='true', VERIF_REPO=f'{MX}/repo', VERIF_HOME=f'{MX}/verif')
+    global REPO
+    REPO = f'{MX}/repo'   # the worker's own worktree (the shared /repo may be carrying a patch under test)
     cands = candidates()
     mine = [c for k, c in enumerate(cands) if k % n == i]
     cnt = 0
